@@ -301,6 +301,16 @@ pub fn run(_st: &mut State, op: &str, cmd: &Value) -> Value {
                 }))
             })
         }
+        "assets.log" => {
+            // beyond the list: the chat log; enum values by their Debug names, messages as bytes
+            let b = crate::ops_patch::unhex(cmd["_hex"].as_str().unwrap_or(""));
+            guarded(|| {
+                value(opt(physis::log::ChatLog::from_existing(&b), |l| {
+                    Value::Array(l.entries.iter().map(|e| json!({"filter": format!("{:?}", e.filter), "channel": format!("{:?}", e.channel),
+                                                                 "message": sbytes(&e.message)})).collect())
+                }))
+            })
+        }
         _ => toolerror(&format!("unknown op {op}")),
     }
 }
